@@ -124,7 +124,9 @@ pub fn run_check(prop: &str, tier: Tier, seed: u64, runs: Option<u64>, workers: 
     // mandatory probes
     let names = props::probe_names(prop);
     let mut harness_error = false;
-    for i in props::mandatory_probes(prop) {
+    // a batch that stopped early (fail-fast) cannot be expected to have reached every probe
+    let complete = agg.evaluations >= runs + directed.len() as u64;
+    for i in props::mandatory_probes(prop).into_iter().filter(|_| complete) {
         if agg.probes.get(i).copied().unwrap_or(0) == 0 {
             eprintln!("HARNESS: mandatory probe '{}' stayed at zero", names[i]);
             harness_error = true;
